@@ -268,26 +268,36 @@ theorem inv_enqueue {s : State} (hi : QueueInv rid s) (n : Nat) (hv : s.height +
     omega
   · exact hi.entry e h1
 
+/-- an interval the handler accepts keeps the due height inside `int64` -/
+theorem accepted_interval {s : State} (h0 : 0 ≤ s.height) (h1 : s.height < two63) {n : Nat}
+    (h : ¬ n > maxInterval s.height) : s.height + (n : Int) < two63 := by
+  unfold maxInterval u64 two64 at h; unfold two63 at *
+  omega
+
 theorem inv_request {s s' : State} {c : String} {ok : Bool} {n : Nat} {tx : String} {feeOk : Bool}
-    (hi : QueueInv rid s) (hv : s.height + (n : Int) < two63)
+    (hi : QueueInv rid s)
     (h : stepRequest rid s c ok n tx feeOk = .ok s') : QueueInv rid s' := by
   unfold stepRequest at h
   split at h; · cases h
   split at h; · cases h
+  split at h; · cases h
+  rename_i hn
   cases h
-  exact inv_enqueue hi n hv c _ ⟨rfl, rfl⟩ _ rfl rfl
+  exact inv_enqueue hi n (accepted_interval hi.height_nonneg hi.height_lt hn) c _ ⟨rfl, rfl⟩ _ rfl rfl
 
 theorem inv_requestOracle {s s' : State} {c : String} {ok : Bool} {n : Nat} {tx fee : String} {feeOk : Bool}
-    {svc : Svc} (hi : QueueInv rid s) (hv : s.height + (n : Int) < two63)
+    {svc : Svc} (hi : QueueInv rid s)
     (h : stepRequestOracle rid s c ok n tx fee feeOk svc = .ok s') : QueueInv rid s' := by
   unfold stepRequestOracle at h
   split at h; · cases h
   split at h; · cases h
+  split at h; · cases h
+  rename_i hn
   split at h
   · cases h
   · cases h
   · cases h
-    exact inv_enqueue hi n hv c _ ⟨rfl, rfl⟩ _ rfl rfl
+    exact inv_enqueue hi n (accepted_interval hi.height_nonneg hi.height_lt hn) c _ ⟨rfl, rfl⟩ _ rfl rfl
 
 /-- after the begin block of height `s.height + 1` every remaining entry is due strictly later -/
 theorem inv_beginBlock {s s' : State} {h t : Int} {hash : ByteArray}
@@ -337,8 +347,8 @@ theorem inv_step {s s' : State} {op : Op} (hi : QueueInv requestId s) (hv : OpVa
     (h : step s op = .ok s') : QueueInv requestId s' := by
   cases op with
   | beginBlock hh t hash st => exact inv_beginBlock hi hv h
-  | request c ok n tx feeOk => exact inv_request hi hv h
-  | requestOracle c ok n tx fee feeOk svc => exact inv_requestOracle hi hv h
+  | request c ok n tx feeOk => exact inv_request hi h
+  | requestOracle c ok n tx fee feeOk svc => exact inv_requestOracle hi h
   | cbResponse ctxId out err =>
     simp only [step] at h
     have f := cbResponse_frame h
